@@ -150,7 +150,9 @@ class Ctx:
             open(os.path.join(dump, f"q{self.__class__.dump_n}.smt2"), "w").write(text)
         try:
             with tempfile.NamedTemporaryFile("w", suffix=".smt2", delete=False) as fh:
-                fh.write("(set-logic ALL)\n" + text)
+                # z3 prints in-bounds element access as seq.nth_i; cvc5 knows seq.nth (out-of-bounds value unspecified:
+                # unsat for every interpretation implies unsat for z3's)
+                fh.write("(set-logic ALL)\n" + text.replace("seq.nth_i", "seq.nth"))
                 path = fh.name
             p = subprocess.run(["/usr/bin/cvc5", "--strings-exp", "--tlimit=20000", path], capture_output=True, text=True, timeout=30)
             os.unlink(path)
